@@ -1007,10 +1007,18 @@ def main():
             g.random_enum(i)
         else:
             g.generic_item(i)
+    def write_if_changed(path, text):
+        # keep mtimes stable when nothing changed (cargo would otherwise rebuild the zoo crate)
+        try:
+            if open(path).read() == text:
+                return
+        except OSError:
+            pass
+        open(path, "w").write(text)
     src = g.render()
-    open(a.out, "w").write(src)
+    write_if_changed(a.out, src)
     if a.abi_out:
-        open(a.abi_out, "w").write(render_abi(g, a.module))
+        write_if_changed(a.abi_out, render_abi(g, a.module))
     feats = {}
     for it in g.items:
         for t in it["tags"]:
